@@ -280,27 +280,30 @@ Qed.
 
 (* the shapes, one by one *)
 Ltac shapes1 l :=
-  destruct l as [|[|o n| |] [|[|o2 n2| |] [|e3 t3]]]; cbn [shape1]; try tauto;
+  destruct l as [|[|o n| |] [|[|o2 n2| |] [|[|o3 n3| |] [|e4 t4]]]]; cbn [shape1]; try tauto;
   try match goal with |- context [match ?o with 0 => _ | N.pos _ => _ end] => destruct o; try tauto end.
 Ltac shapes2 l :=
   destruct l as [|[r|o n| | |] [|[r2|o2 n2| | |] [|e3 t3]]]; cbn [shape2 is_res2]; try tauto;
   try (intros; discriminate).
 
-(* RevertContracts goes through the changes of a contract in the order of ApplyContracts (not in
-   reverse): for the combinations a block may carry that still undoes them *)
+(* RevertContracts goes through the changes of a contract in the order of ApplyContracts with the
+   formation last (v2: in the order of ApplyContracts), not in reverse: for the combinations a
+   block may carry that still undoes them *)
 Lemma inverse1_evs h l x : cinv1 x -> shape1 l -> valid_evs1 h l x ->
-  heqv1 (rspec_evs1 l (spec_evs1 h l x)) x.
+  heqv1 (rspec_evs1 (rorder1 l) (spec_evs1 h l x)) x.
 Proof.
-  intros Hc Hs Hv. revert Hs Hv. shapes1 l; intros Hs Hv; cbn in Hv; unfold rspec_evs1, spec_evs1; cbn [fold_left];
-    try (apply heqv1_refl); try (apply inverse1; [assumption|exact (Logic.proj1 Hv)]).
-  revert Hc Hv. unfold cinv1, heqv1. h1 x; crush.
+  intros Hc Hs Hv. revert Hs Hv. shapes1 l; intros Hs Hv; cbn in Hv;
+    unfold rspec_evs1, spec_evs1, rorder1; cbn [filter is_form1 negb app fold_left];
+    try (apply heqv1_refl); try (apply inverse1; [assumption|exact (Logic.proj1 Hv)]);
+    revert Hc Hv; unfold cinv1, heqv1; h1 x; crush.
 Qed.
 Lemma inverse1_evs_exact h l x : cinv1 x -> shape1 l -> valid_evs1 h l x -> h_st x <> Rejected ->
-  rspec_evs1 l (spec_evs1 h l x) = x.
+  rspec_evs1 (rorder1 l) (spec_evs1 h l x) = x.
 Proof.
-  intros Hc Hs Hv. revert Hs Hv. shapes1 l; intros Hs Hv Hr; cbn in Hv; unfold rspec_evs1, spec_evs1; cbn [fold_left];
-    try reflexivity; try (apply inverse1_exact; [assumption|exact (Logic.proj1 Hv)|assumption]).
-  revert Hc Hv Hr. unfold cinv1. h1 x; crush.
+  intros Hc Hs Hv. revert Hs Hv. shapes1 l; intros Hs Hv Hr; cbn in Hv;
+    unfold rspec_evs1, spec_evs1, rorder1; cbn [filter is_form1 negb app fold_left];
+    try reflexivity; try (apply inverse1_exact; [assumption|exact (Logic.proj1 Hv)|assumption]);
+    revert Hc Hv Hr; unfold cinv1; h1 x; crush.
 Qed.
 Lemma inverse2_evs i l x : cinv2 x -> shape2 l -> valid_evs2 i l x ->
   heqv2 (rspec_evs2 l (spec_evs2 i l x)) x.
@@ -382,16 +385,16 @@ Qed.
 
 (* reverting: the row is what processing the changes produced *)
 Lemma rrows1_succeed h l c x : cinv1 x -> shape1 l -> valid_evs1 h l x -> proj1 c = spec_evs1 h l x ->
-  rrows_ok1 l c.
+  rrows_ok1 (rorder1 l) c.
 Proof.
-  intros Hc Hs Hv. revert Hs Hv. shapes1 l; intros Hs Hv Hp; cbn in Hv; cbn [rrows_ok1].
-  - destruct (rrow1_succeeds h PForm1 c x Hc (Logic.proj1 Hv) Hp) as [r Hr]. exists r; auto.
-  - (* formation carrying a revision *)
-    revert Hc Hv Hp. unfold cinv1. c1d c; h1 x; cbn; intros; crush;
-      (eexists; split; [reflexivity|]; eexists; split; [reflexivity|exact I]).
-  - destruct (rrow1_succeeds h (PRev1 o n) c x Hc (Logic.proj1 Hv) Hp) as [r Hr]. exists r; auto.
-  - destruct (rrow1_succeeds h PSucc1 c x Hc (Logic.proj1 Hv) Hp) as [r Hr]. exists r; auto.
-  - destruct (rrow1_succeeds h PFail1 c x Hc (Logic.proj1 Hv) Hp) as [r Hr]. exists r; auto.
+  intros Hc Hs Hv. revert Hs Hv. shapes1 l; intros Hs Hv Hp; cbn in Hv;
+    unfold rorder1; cbn [filter is_form1 negb app rrows_ok1];
+    try exact I;
+    try (match goal with |- exists r, rrow1_of ?e c = ROk r /\ True =>
+           destruct (rrow1_succeeds h e c x Hc (Logic.proj1 Hv) Hp) as [r0 Hr0]; exists r0; auto end);
+    (* formation carrying a revision, possibly resolved *)
+    revert Hc Hv Hp; unfold cinv1; c1d c; h1 x; cbn; intros; crush;
+      repeat (eexists; split; [reflexivity|]); exact I.
 Qed.
 Lemma rrows2_succeed i l c x : cinv2 x -> shape2 l -> valid_evs2 i l x -> proj2 c = spec_evs2 i l x ->
   rrows_ok2 l c.
